@@ -13,6 +13,7 @@
   * `gen_spec_reset_fresh_noop` — `reset()` before the first `update()` does nothing (C10: "harmless").
 -/
 import Rtamt.Py.GeneratedFwd
+import RtamtProofs.GenClock
 
 namespace Rtamt.Py.Fwd
 open Rtamt Rtamt.Py
@@ -337,5 +338,33 @@ theorem gen_spec_ast_before_use (on off : Option IKind) (cs : List Api) (o' : Sp
 example : (Api.run [.evaluate [7], .update [0, 8], .reset, .evaluate [9]]
     (fresh (some .discreteOnline) (some .discreteOffline))).toOption.map (fun o => o.log.length) = some 4 := by
   decide
+
+
+/-! ### what the forwarded call does inside the interpreter -/
+
+section interp
+open Rtamt.Py
+variable {α : Type} [Val α]
+
+/-- `DiscreteTimeInterpreter.set_sampling_period(p, u, t)` as translated from the source: with a tolerance in `[0, 1]` it
+    assigns the three attributes (the effect `callInterp` gives the forwarded call). -/
+theorem gen_interp_set_sampling_period (st : Store α) (p : Rat) (u : String) (t : Rat) (h0 : 0 ≤ t) (h1 : t ≤ 1) :
+    call (α := α) Gen.Fwd.interp_set_sampling_period st [.rat p, .str u, .rat t]
+      = .ok (setKey "sampling_tolerance" (.rat t) (setKey "sampling_period_unit" (.str u) (setKey "sampling_period" (.rat p) st)),
+             .none) := by
+  have hlt : decide (t < 0) = false := by simpa using Rat.not_lt.mpr h0
+  have hgt : decide (1 < t) = false := by simpa using Rat.not_lt.mpr h1
+  py_simp [Gen.Fwd.interp_set_sampling_period, ratOf, hlt, hgt]
+
+/-- … and with a tolerance outside `[0, 1]` it raises `Exception` (`callInterp` gives the forwarded call this outcome too). -/
+theorem gen_interp_set_sampling_period_rejects (st : Store α) (p : Rat) (u : String) (t : Rat) (h : t < 0 ∨ 1 < t) :
+    call (α := α) Gen.Fwd.interp_set_sampling_period st [.rat p, .str u, .rat t] = .error .other := by
+  rcases h with h | h
+  · have hlt : decide (t < 0) = true := by simpa using h
+    py_simp [Gen.Fwd.interp_set_sampling_period, ratOf, hlt]
+  · have hgt : decide (1 < t) = true := by simpa using h
+    py_simp [Gen.Fwd.interp_set_sampling_period, ratOf, hgt]
+
+end interp
 
 end Rtamt.Py.Fwd
